@@ -269,3 +269,98 @@ Proof.
   intros Hb W. unfold inner_actionsigs, ref_block, block_wf in *. f_equal.
   exact (sig_block_from sigs 0 body (body_ok_line_ok _ _ Hb) (block_wf_values sig_table _ 0 body W)).
 Qed.
+
+(* ---------------------------------------------------------------- PairExpander.Expand around a block *)
+Section PairBlock.
+  Variables (bt et : string) (f : list string -> option string -> option (list string)).
+  Notation PG := (pair_go bt et f).
+  Definition not_be (l : string) : bool := negb (hasSpecificTag l bt) && negb (hasSpecificTag l et).
+
+  Lemma not_be_parts l : not_be l = true -> hasSpecificTag l bt = false /\ hasSpecificTag l et = false.
+  Proof. unfold not_be. intros H. apply andb_prop in H as [H1 H2]. apply negb_true_iff in H1, H2. tauto. Qed.
+
+  Lemma pb_pre : forall pre r p, forallb not_be pre = true -> PG false [] p (pre ++ r) = option_map (app pre) (PG false [] p r).
+  Proof.
+    induction pre as [|l pre IH]; intros r p H.
+    - cbn [app]. destruct (PG false [] p r); reflexivity.
+    - cbn [forallb] in H. apply andb_prop in H as [H1 H2]. destruct (not_be_parts l H1) as [Hb He].
+      cbn [app pair_go]. rewrite Hb, He. cbn [orb andb negb]. rewrite (IH r p H2). destruct (PG false [] p r); reflexivity.
+  Qed.
+
+  Lemma pb_body : forall body snip p r, forallb not_be body = true -> PG true snip p (body ++ r) = PG true (snip ++ body) p r.
+  Proof.
+    induction body as [|l body IH]; intros snip p r H.
+    - cbn [app]. rewrite app_nil_r. reflexivity.
+    - cbn [forallb] in H. apply andb_prop in H as [H1 H2]. destruct (not_be_parts l H1) as [Hb He].
+      cbn [app pair_go]. rewrite Hb, He. cbn [orb andb negb]. rewrite (IH _ p r H2). rewrite <- app_assoc. cbn [app].
+      destruct (PG true (snip ++ l :: body) p r); reflexivity.
+  Qed.
+
+  (* text, then a block (begin line without parameter, body, end line), then the rest: the text is kept, the block is
+     replaced by what the expansion function returns for the body, the expander is back in its initial state *)
+  Lemma pair_block pre bl body el rest :
+    forallb not_be pre = true -> forallb not_be body = true ->
+    hasSpecificTag bl bt = true -> hasSpecificTag bl et = false -> hasDefault bl = false ->
+    hasSpecificTag el bt = false -> hasSpecificTag el et = true ->
+    PG false [] None (pre ++ bl :: body ++ el :: rest)
+    = match f body None with
+      | Some out => option_map (fun t => pre ++ out ++ t) (PG false [] None rest)
+      | None => None
+      end.
+  Proof.
+    intros Hpre Hbody B1 B2 B3 E1 E2. rewrite (pb_pre pre _ None Hpre).
+    cbn [pair_go]. rewrite B1, B2, B3. cbn [orb andb negb app].
+    rewrite (pb_body body [] None _ Hbody). cbn [app pair_go]. rewrite E1, E2. cbn [orb andb negb app].
+    destruct (f body None) as [out|]; [|reflexivity]. destruct (PG false [] None rest); reflexivity.
+  Qed.
+End PairBlock.
+
+(* ---------------------------------------------------------------- the expander stage of a block kind *)
+Definition stage_tags (k : ekind) : string * string :=
+  match k with
+  | KState => (stag "__TAG_PS_BEGIN__", stag "__TAG_PS_END__") | KEvent => (stag "__TAG_PE_BEGIN__", stag "__TAG_PE_END__")
+  | KAction => (stag "__TAG_PA_BEGIN__", stag "__TAG_PA_END__") | KGuard => (stag "__TAG_PG_BEGIN__", stag "__TAG_PG_END__")
+  | KStruct => (stag "__TAG_STRUCT_BEGIN__", stag "__TAG_STRUCT_END__") | KProto => (stag "__TAG_PROTOMSG_BEGIN__", stag "__TAG_PROTOMSG_END__")
+  | KMsg => (stag "__TAG_MSG_BEGIN__", stag "__TAG_MSG_END__")
+  end.
+Definition inner_of_kind (k : ekind) (items : list string) : list string -> option string -> option (list string) :=
+  match k with KStruct | KProto | KMsg => inner_proto items | _ => inner_second items end.
+
+(* the stage list read from the source has, for every kind, the stage with these tags and this inner function *)
+Lemma stage_in_source m k :
+  existsb (fun st => let '(kind, b, e, inner, coll) := st in
+                     String.eqb kind "Pair" && String.eqb b (fst (stage_tags k)) && String.eqb e (snd (stage_tags k))
+                     && match inner_of m inner coll with Some _ => true | None => false end)
+          (second_stages ++ second_stages_iface) = true.
+Proof. destruct k; reflexivity. Qed.
+
+Lemma block_lines_facts k :
+  let bl := begin_line (block_word k) in let el := end_line (block_word k) in
+  hasSpecificTag bl (fst (stage_tags k)) = true /\ hasSpecificTag bl (snd (stage_tags k)) = false /\ hasDefault bl = false
+  /\ hasSpecificTag el (fst (stage_tags k)) = false /\ hasSpecificTag el (snd (stage_tags k)) = true.
+Proof. destruct k; vm_compute; auto. Qed.
+
+Lemma inner_block k items body :
+  forallb (body_line_ok (keys_of k)) body = true -> block_wf (table_of_kind k) items body = true ->
+  inner_of_kind k items (map render_line body) None = Some (ref_block (table_of_kind k) items body).
+Proof.
+  destruct k; cbn [inner_of_kind table_of_kind]; intros Hb W;
+    first [apply elem_block_is_ref; [exact (eq_trans (f_equal (fun ks => forallb (body_line_ok ks) body) eq_refl) Hb)|exact W]
+          |apply proto_block_is_ref; [exact (eq_trans (f_equal (fun ks => forallb (body_line_ok ks) body) eq_refl) Hb)|exact W]].
+Qed.
+
+(* PairExpander.Expand of the block's stage: the text before the block is kept, the block (begin line, body, end line) is
+   replaced by the reference block, and the expander continues on the rest from its initial state *)
+Theorem block_stage k items pre body rest :
+  let bt := fst (stage_tags k) in let et := snd (stage_tags k) in
+  forallb (not_be bt et) pre = true -> forallb (not_be bt et) (map render_line body) = true ->
+  forallb (body_line_ok (keys_of k)) body = true -> block_wf (table_of_kind k) items body = true ->
+  pair_expand bt et (inner_of_kind k items) (pre ++ render_item16 (Block k body) ++ rest)
+  = option_map (fun t => pre ++ ref_block (table_of_kind k) items body ++ t)
+               (pair_go bt et (inner_of_kind k items) false [] None rest).
+Proof.
+  intros bt et Hpre Hnb Hb W. destruct (block_lines_facts k) as (B1 & B2 & B3 & E1 & E2).
+  unfold pair_expand. cbn [render_item16 app]. rewrite <- app_assoc. cbn [app].
+  rewrite (pair_block bt et (inner_of_kind k items) pre _ (map render_line body) _ rest Hpre Hnb B1 B2 B3 E1 E2).
+  rewrite (inner_block k items body Hb W). reflexivity.
+Qed.
